@@ -114,6 +114,18 @@ func (x *Exec) evalCall(call *ast.CallExpr, env *Env) []Term {
 	}
 	if fi != nil && fi.Decl.Body != nil && x.depth < maxInlineDepth {
 		if rs, ok := x.callTermFun(fi, recv, args, env); ok {
+			// a function compiled to a term adds no facts; a result that is syntactically always `&composite` is not nil
+			if !x.termMode {
+				for i := range rs {
+					if i < sig.Results().Len() && returnsAddrAlways(fi.Decl, i) {
+						if _, isPtr := sig.Results().At(i).Type().Underlying().(*types.Pointer); isPtr {
+							pn := "isnilptr_" + sanitize(string(rs[i].Sort))
+							x.W.DeclareFun(pn, []Sort{rs[i].Sort}, SBool)
+							x.W.AddFact(env.pc, Not(T("("+pn+" "+rs[i].S+")", SBool)))
+						}
+					}
+				}
+			}
 			return rs
 		}
 		if !x.termMode && (fc != nil || !hasLoop(fi.Decl.Body)) {
@@ -124,6 +136,33 @@ func (x *Exec) evalCall(call *ast.CallExpr, env *Env) []Term {
 		unsupported("call of %s not expressible as a term", key)
 	}
 	return x.abstractCall(key, fn, sig, call, recvExpr, args, env)
+}
+
+// returnsAddrAlways: every return statement of fd gives `&composite-literal` as result i.
+func returnsAddrAlways(fd *ast.FuncDecl, i int) bool {
+	ok, any := true, false
+	ast.Inspect(fd.Body, func(n ast.Node) bool {
+		switch s := n.(type) {
+		case *ast.FuncLit:
+			return false
+		case *ast.ReturnStmt:
+			any = true
+			if i >= len(s.Results) {
+				ok = false
+				return false
+			}
+			u, isU := ast.Unparen(s.Results[i]).(*ast.UnaryExpr)
+			if !isU || u.Op != token.AND {
+				ok = false
+				return false
+			}
+			if _, isLit := ast.Unparen(u.X).(*ast.CompositeLit); !isLit {
+				ok = false
+			}
+		}
+		return ok
+	})
+	return ok && any
 }
 
 func hasLoop(n ast.Node) bool {
